@@ -17,7 +17,7 @@ PID = "C10"
 RULE = ("states = reachable object graphs of a ForSys under op histories (BFS, de-duplicated on a hash of all instance dictionaries); "
         "non-trivial = at least one frame solved; classes = (effective ops per frame)")
 BOUND = {"quick": "1 frame: all histories to depth 3 over 12 ops from 2 start states (fresh; solved with an angle limit and pressures); 2 frames: depth 3 over 16 ops from the fresh object, depth 2 over 18 ops from a solved one",
-         "thorough": "1 frame: to depth 6 (or fixpoint); 2 frames: depth 4; 3 frames: depth 3"}
+         "thorough": "1 frame: depth 4 over 13 ops from 3 start states; 2 frames: depth 3 over 22 ops from 2 start states; 3 frames: depth 2 over 19 ops from 2 start states"}
 ASSUMPTIONS = ["what matters for the tensions of frame t: the last successful build of t before the last successful solve of t, and that solve's arguments",
                "what matters for the pressures of frame t: the tensions present when the pressure matrix was last built, and the last solve_pressure",
                "interfaces excluded by an angle limit are only compared through the -1 reported for them",
@@ -323,6 +323,6 @@ def build(tier, seed):
                 Histories("two-frames-from-solved", "v5x5", cells, 2, ops_for(2, ["bdef", "bang"], ["sdef", "svel", "sfix"]), 2, r2)]
     r1 = [[["bdef", 0], ["sdef", 0]], [["bang", 0], ["sdef", 0], ["pbuild", 0], ["psolve", 0]]]
     r2 = [[["bdef", 0], ["sdef", 0], ["bdef", 1], ["svel", 1]]]
-    return [Histories("one-frame", "v5x5", cells, 1, ops_for(1, ["bdef", "btau", "bang"], ["sdef", "slsq", "slin", "sfix", "sneg"]), 5, r1),
-            Histories("two-frames", "v5x5", cells, 2, ops_for(2, ["bdef", "bang", "btau"], ["sdef", "svel", "sfix", "slin"]), 4, r2),
-            Histories("three-frames", "v5x5", cells, 3, ops_for(3, ["bdef", "bang"], ["sdef", "svel"]), 3, r2)]
+    return [Histories("one-frame", "v5x5", cells, 1, ops_for(1, ["bdef", "btau", "bang"], ["sdef", "slsq", "slin", "sfix", "sneg"]), 4, r1),
+            Histories("two-frames", "v5x5", cells, 2, ops_for(2, ["bdef", "bang", "btau"], ["sdef", "svel", "sfix", "slin"]), 3, r2),
+            Histories("three-frames", "v5x5", cells, 3, ops_for(3, ["bdef", "bang"], ["sdef", "svel"]), 2, r2)]
